@@ -52,6 +52,9 @@ def main():
                           "ijab"),
         "expec_2": (lambda: gs().expectation_value(2, 1), ""),
         "psi_2": (lambda: gs().psi(2, "ket"), None),
+        "re_energy0": (lambda: gs("re").energy(0), ""),
+        "re_resid_j3": (lambda: gs("re").amplitude_residual(
+            1, "pphh", "j3k3ab"), "j3k3ab"),
         "norm_2": (lambda: gs().norm_factor(2), ""),
         "norm_4": (lambda: gs().norm_factor(4), ""),
         "expand_density": (lambda: Expr(
